@@ -881,6 +881,20 @@ pub fn check_c20(h: &mut Hist, ctx: &mut Ctx) {
         }
     }
     ctx.cov.add("c20_announced_headers_seen", bk.next_by_hash.len() as u64);
+    // where the workload tracks announcements: everything certainly stored is present (a later
+    // sync decision needs it), and nothing is present that was never offered
+    if !h.ann_may.is_empty() || !h.ann_must.is_empty() {
+        for x in h.ann_must.iter() {
+            if !by_hash.contains(&x.hash) {
+                problems.push(format!("announced header at height {} that must still be stored is missing", x.height));
+            }
+        }
+        for b in by_hash.iter() {
+            if !h.ann_may.iter().any(|x| &x.hash == b) {
+                problems.push("an announced header is stored that was never offered (or was already delivered)".into());
+            }
+        }
+    }
     // cached tip depths
     let mut tips: Vec<usize> = h.model.leaf_paths().iter().map(|(p, _)| p.len()).collect();
     tips.sort();
